@@ -53,6 +53,24 @@ func dryRun(tt *testing.T, sc *scenario) (n int, o *outcome, v verdict) {
 	return o.AtReturn.IOs, o, v
 }
 
+// baseline is the metamorphic companion of the statement: a context that has
+// not ended and a timeout that has not elapsed by the time Dial returns must
+// not change the result — the handshake that succeeds under the background
+// context (dry run, same dialer, same scripted peer) succeeds here too.
+func baseline(dry, o *outcome, v verdict) string {
+	if dry == nil || dry.Err != nil || dry.Rescued || !dry.Returned || o.Rescued || o.Err == nil {
+		return ""
+	}
+	if v.HasBound && o.TR >= v.Bound {
+		return ""
+	}
+	limit := "no context end and no timeout exist"
+	if v.HasBound {
+		limit = fmt.Sprintf("the earliest limit (%s) lies at %v", v.BoundKind, v.Bound)
+	}
+	return fmt.Sprintf("Dial failed with %q at %v although %s; the same handshake succeeds under the background context", o.Err, o.TR, limit)
+}
+
 func timeoutClass(sc *scenario) string {
 	switch {
 	case sc.Timeout == 0:
@@ -222,6 +240,9 @@ func TestCancelAnywhere(t *testing.T) {
 		if v.Infra != "" {
 			rt.Fatalf("VERIF-INFRA: %s\ncase: %s", v.Infra, hx.JSON(describe(sc, n, o, v)))
 		}
+		if v.Violation == "" {
+			v.Violation = baseline(dryOut, o, v)
+		}
 		if v.Violation != "" {
 			rt.Fatalf("%s\ncase: %s", v.Violation, hx.JSON(describe(sc, n, o, v)))
 		}
@@ -335,6 +356,9 @@ func TestSuccessRace(t *testing.T) {
 		if v.Infra != "" {
 			rt.Fatalf("VERIF-INFRA: %s\ncase: %s", v.Infra, hx.JSON(describe(sc, n, o, v)))
 		}
+		if v.Violation == "" {
+			v.Violation = baseline(dryOut, o, v)
+		}
 		if v.Violation != "" {
 			rt.Fatalf("%s\ncase: %s", v.Violation, hx.JSON(describe(sc, n, o, v)))
 		}
@@ -429,6 +453,9 @@ func TestEveryIOIndex(t *testing.T) {
 					hx.Failf(t, describe(&sc, n, o, v), "VERIF-INFRA: %s", v.Infra)
 					return
 				}
+				if v.Violation == "" {
+					v.Violation = baseline(dryOut, o, v)
+				}
 				if v.Violation != "" {
 					hx.Failf(t, describe(&sc, n, o, v), "%s", v.Violation)
 					return
@@ -492,7 +519,7 @@ func TestEveryExpiryInstant(t *testing.T) {
 				}
 				base := scenario{DialDelay: dialDelay, WBuf: wbuf, Peer: ep.p}
 				base.Peer.SlowDL = wi == 2
-				n, _, _ := dryRun(t, &base)
+				n, dryOut, _ := dryRun(t, &base)
 				for _, l := range limits {
 					for k := 0; k <= 7; k++ {
 						sc := base
@@ -503,6 +530,9 @@ func TestEveryExpiryInstant(t *testing.T) {
 						if v.Infra != "" {
 							hx.Failf(t, describe(&sc, n, o, v), "VERIF-INFRA: %s", v.Infra)
 							return
+						}
+						if v.Violation == "" {
+							v.Violation = baseline(dryOut, o, v)
 						}
 						if v.Violation != "" {
 							hx.Failf(t, describe(&sc, n, o, v), "%s", v.Violation)
